@@ -4,6 +4,12 @@ import BarterModel.Model.Unrealised
 Line-protocol driver for C15. Ops:
   `init n [x]`                                      n instruments on one exchange / (x in 1..5) instrument k on
                                                     exchange k % x (no C15 clause reads the exchange)
+  `init n x <kinds> <on|off> <links> <via>`         configuration shapes: `kinds` non-empty over `s p f o q` (instrument
+                                                    kinds / contract-quantity spec), trading state (with `on` the
+                                                    harness strategy emits a request per event), `links` non-empty
+                                                    over `H C M U` (execution link per exchange), `via` one of
+                                                    `proc audit state` (Engine::process / process_with_audit /
+                                                    EngineState::update_from_* directly); no C15 clause reads them
   `fill <id> <instr> <time> <B|S> <price> <qty> <fee>`   account trade through `Engine::process`
   `trade <instr> <time> <price> [B|S]`              public trade market event (taker side is not read)
   `l1 <instr> <te> <tl> <bidP> <bidA> <askP> <askA>`  top-of-book market event (both sides)
@@ -51,12 +57,23 @@ def parseEv : List String → Option Ev
     | _, _ => none
   | _ => none
 
-/-- `init n` / `init n x` with `1 ≤ x ≤ 5` (the harness has five exchange labels). -/
+/-- non-empty and every character from `alphabet` -/
+def overAlphabet (alphabet : String) (s : String) : Bool :=
+  !s.isEmpty && s.toList.all fun c => alphabet.toList.contains c
+
+/-- `init n` / `init n x` / `init n x <kinds> <on|off> <links> <via>` with `1 ≤ x ≤ 5` (the harness has five
+exchange labels). -/
 def parseInit : List String → Option Nat
   | ["init", n] => n.toNat?
   | ["init", n, x] =>
     match n.toNat?, x.toNat? with
     | some n, some x => if 1 ≤ x ∧ x ≤ 5 then some n else none
+    | _, _ => none
+  | ["init", n, x, kinds, tr, links, via] =>
+    match n.toNat?, x.toNat? with
+    | some n, some x =>
+      if 1 ≤ x ∧ x ≤ 5 ∧ overAlphabet "spfoq" kinds ∧ (tr == "on" || tr == "off") ∧ overAlphabet "HCMU" links
+          ∧ (via == "proc" || via == "audit" || via == "state") then some n else none
     | _, _ => none
   | _ => none
 
